@@ -21,6 +21,9 @@ def generate(rng, tier):
     cases = []
     for _ in range(N):
         r = rng.random()
+        if rng.random() < 0.08:
+            cases.append(cc.gen_ti_boundary(rng))
+            continue
         cases.append(cc.gen_kcenters(rng) if r < 0.4 else cc.gen_kmedoids(rng) if r < 0.8 else cc.gen_hybrid(rng))
     return cases
 
